@@ -24,6 +24,14 @@ func (vrandMinPad) Read(p []byte) (int, error) {
 	return len(p), nil
 }
 
+// c05partial: a partial-block length: 1, 8 or 15 bytes in the quick tier, every 1..15 in thorough.
+func c05partial(name string) int {
+	if verifrt.Tier() == 1 {
+		return 1 + verifrt.Fork(name, 15)
+	}
+	return []int{1, 8, 15}[verifrt.Fork(name, 3)]
+}
+
 func c05message(k AuthKey, enc Cipher, n int) (*bin.Buffer, bool) {
 	payload := verifrt.NondetBytes("payload", n)
 	d := EncryptedMessageData{
@@ -46,7 +54,9 @@ func c05message(k AuthKey, enc Cipher, n int) (*bin.Buffer, bool) {
 //   kind 1: any non-zero xor mask on one 16-byte block of the encrypted body;
 //   kind 2: the last 16-byte block cut off;
 //   kind 3: reflected back (decrypted by the side that encrypted it), key not degenerate;
-//   kind 4: 16 arbitrary bytes appended.
+//   kind 4: 16 arbitrary bytes appended;
+//   kind 5: 1..15 arbitrary bytes appended (a trailing partial block);
+//   kind 6: the last 1..15 bytes cut off.
 // Idealisation: SHA-256 and its msg_key truncation collision-free; AES-IGE a keyed bijection.
 // (Altering msg_key itself is outside: rejecting it is the unforgeability of the hash, not code.)
 func VerifC05_tamper() {
@@ -63,7 +73,7 @@ func VerifC05_tamper() {
 		return
 	}
 	body := b.Buf[24:]
-	kind := verifrt.Fork("kind", 5)
+	kind := verifrt.Fork("kind", 7)
 	switch kind {
 	case 0:
 		mask := verifrt.NondetBytes("idmask", 8)
@@ -85,6 +95,10 @@ func VerifC05_tamper() {
 		verifrt.Assume(string(k.Value[88:120]) != string(k.Value[96:128]))
 	case 4:
 		b.Buf = append(b.Buf, verifrt.NondetBytes("extra", 16)...)
+	case 5:
+		b.Buf = append(b.Buf, verifrt.NondetBytes("extra", c05partial("extralen"))...)
+	case 6:
+		b.Buf = b.Buf[:len(b.Buf)-c05partial("cutlen")]
 	}
 	got, err := dec.DecryptFromBuffer(k, b)
 	verifrt.Assert(err != nil, "C05.tamper.rejected")
